@@ -482,7 +482,9 @@ class Models(object):
             return a.reshape(1, a.shape[0])
         return a
 
-    def np_ravel(self, x):
+    def np_ravel(self, x, order='C'):
+        if order != 'C':
+            raise AnalysisError("np.ravel(order=%r): the result depends on the memory layout of the input, which is not modelled" % (order,))
         return self.np_asarray(x).ravel()
 
     def np_reshape(self, x, shape, *a):
